@@ -118,6 +118,38 @@ def make_funcs(case, tree, index_of):
     return funcs
 
 
+class FalsyCallable:
+    """A predicate object with a truth value of its own that happens to be false (a callable container that is empty, a
+    counter at 0): whether such an object is used or treated like 'no predicate given' is not prescribed - but node
+    statements and edge statements must agree on it."""
+
+    def __init__(self, func):
+        self.func = func
+
+    def __call__(self, node):
+        return self.func(node)
+
+    def __bool__(self):
+        return False
+
+
+def falsify(kwargs, case):
+    if case.get("falsy_predicates"):
+        for key in ("stop", "filter_"):
+            if callable(kwargs.get(key)):
+                kwargs[key] = FalsyCallable(kwargs[key])
+    return kwargs
+
+
+def readings(case, maxlevel, stop_ids, hide_ids):
+    """The admission rules under which an output may be judged: exactly one, unless the case uses options whose reading is
+    not prescribed (a maxlevel that is not a whole number; predicate objects that are falsy)."""
+    levels = [math.floor(maxlevel), math.ceil(maxlevel)] if fractional(maxlevel) else [maxlevel]
+    stops = [stop_ids, set()] if case.get("falsy_predicates") and stop_ids else [stop_ids]
+    hides = [hide_ids, set()] if case.get("falsy_predicates") and hide_ids else [hide_ids]
+    return [(lv, st_, hd) for lv in levels for st_ in stops for hd in hides]
+
+
 def fractional(maxlevel):
     return isinstance(maxlevel, float) and maxlevel != int(maxlevel)
 
@@ -192,7 +224,7 @@ def check_exporter(case, kind, tree, labels, acc):
         if key in case:
             kwargs[key] = case[key]
     trip = {"left": None}
-    kwargs = tripwired(kwargs, trip)
+    kwargs = falsify(tripwired(kwargs, trip), case)
     args = ()
     if case.get("positional"):
         # every option passed by position, in the order of the released signatures (callers written that way must keep working)
@@ -210,21 +242,23 @@ def check_exporter(case, kind, tree, labels, acc):
             exporter = RenderTreeGraph(start, *args, **kwargs)
     ctx = "%s start=%s stop=%s hide=%s maxlevel=%r shape=%s names=%r" % (kind, case["start"], case["stop"], case["hide"], maxlevel, case["shape"], case["names"])
 
-    level = [maxlevel]
+    level = [maxlevel, stop_ids, hide_ids]
 
     def verify(lines, known_ident, phase):
-        """A maxlevel that is not a whole number has no prescribed reading (the statement says 'depth below maxlevel', the
-        iterators count levels from 1 and stop above it): node and edge statements must be right for ONE of the two."""
-        if not fractional(maxlevel):
-            return verify_at(lines, known_ident, phase)
+        """A maxlevel that is not a whole number and predicate objects that are falsy have no prescribed reading (the
+        statement says 'depth below maxlevel', the iterators count levels from 1; 'x or default' skips a falsy callable):
+        the output must be right for ONE reading - node and edge statements have to agree on it - and no more is asked."""
+        options_ = readings(case, maxlevel, stop_ids, hide_ids)
         first = None
-        for reading in (math.floor(maxlevel), math.ceil(maxlevel)):
-            level[0] = reading
+        for reading in options_:
+            level[:] = reading
             try:
                 return verify_at(lines, known_ident, phase)
             except Violation as exc:
+                if len(options_) == 1:
+                    raise
                 first = first or exc
-        raise Violation(first.clause, "maxlevel=%r read as %d and as %d: %s" % (maxlevel, math.floor(maxlevel), math.ceil(maxlevel), first.detail))
+        raise Violation(first.clause, "no single reading of maxlevel=%r / the falsy predicates explains the output: %s" % (maxlevel, first.detail))
 
     def verify_at(lines, known_ident, phase):
         """Complete oracle for one iteration of the exporter against the CURRENT tree and admission sets."""
@@ -240,7 +274,7 @@ def check_exporter(case, kind, tree, labels, acc):
         if body[: len(options)] != want_opts:
             raise Violation("options", "%s: option lines %r expected %r" % (ctx, body[: len(options)], want_opts))
         body = body[len(options):]
-        declared, edges, kf = expected_structure(tree, start, stop_ids, hide_ids, level[0])
+        declared, edges, kf = expected_structure(tree, start, level[1], level[2], level[0])
         if len(body) < len(declared):
             raise Violation("node-statements", "%s: %d statements for %d declared nodes: %r" % (ctx, len(body), len(declared), body))
         # node statements in pre-order
@@ -544,6 +578,7 @@ def check_case(case, acc):
     acc.tag("cases_with_edges", bool(first[2]))
     acc.tag("maxlevel_0", case["maxlevel"] == 0)
     acc.tag("maxlevel_not_a_whole_number", fractional(case["maxlevel"]))
+    acc.tag("falsy_predicate_objects", bool(case.get("falsy_predicates")))
     acc.tag("custom_functions", bool(case.get("funcs")))
 
 
@@ -590,6 +625,10 @@ def _fraction_cases(max_nodes):
                 for hide in [[]] + [[x] for x in sub]:
                     k += 1
                     yield {"shape": forest.to_list(shape), "names": special_names(size, k), "start": start, "stop": [], "hide": hide, "maxlevel": half + 0.5, "truth": k, "positional": k % 4 == 0, "cls": "Node"}
+            # predicate objects that are falsy: used or ignored, but the same way for node and edge statements
+            for stop, hide in [([x], []) for x in sub[1:]] + [([], [x]) for x in sub] + [([x], [y]) for x in sub[1:] for y in sub if x != y]:
+                k += 1
+                yield {"shape": forest.to_list(shape), "names": special_names(size, k), "start": start, "stop": stop, "hide": hide, "maxlevel": None if k % 3 else 2, "truth": k, "positional": k % 4 == 0, "cls": "Node", "falsy_predicates": True}
 
 
 NAME = st.text(alphabet=NAME_ALPHABET, min_size=0, max_size=4)
